@@ -72,7 +72,9 @@ pub fn draw_params<W: World>(w: &W, n: usize, rng: &mut Rng) -> RunParams {
     let mut p = rng.fork("params");
     let batch = p.range(1, 4) as usize;
     let max_proofs = p.range(batch as u64, 8) as usize;
-    let window_ns = *p.pick(&[1 * S, 5 * S, 60 * S]);
+    // whole and fractional seconds, sub-second, and one nanosecond off a whole second: a limit
+    // handled in truncated units (seconds, milliseconds) behaves differently only on the latter
+    let window_ns = *p.pick(&[1 * S, 5 * S, 60 * S, 900 * MS, 3900 * MS, 250 * MS, S + 1, 2 * S - 1, 59_999 * MS + 999_999]);
     let pool = PoolParams {
         n,
         batch,
@@ -127,7 +129,7 @@ pub fn draw_params<W: World>(w: &W, n: usize, rng: &mut Rng) -> RunParams {
         faults,
         block_interval_ns: *p.pick(&[6 * S, 12 * S, 30 * S]),
         expiry_period_ns: *p.pick(&[10 * S, 60 * S, 300 * S]),
-        max_age_ns: *p.pick(&[20 * S, 90 * S, 600 * S, 1800 * S]),
+        max_age_ns: *p.pick(&[20 * S, 90 * S, 600 * S, 1800 * S, 20 * S + 500 * MS, 7 * S + 1, 90 * S - 1, 750 * MS]),
         policy_period_ns: *p.pick(&[3 * S, 10 * S, 45 * S]),
         reprove_timeout_ns: *p.pick(&[20 * S, 60 * S]),
         send_gap_ns,
